@@ -97,7 +97,7 @@ def pair_case(draw):
                                draw(st.sampled_from([0.0, 0.0, -4.5, 13.0]))]]
     elif prior == 'rotate': prior = ['rotate', draw(st.sampled_from([90.0, 33.0, -120.0]))]
     return {'k': 'pair', 'mode': mode, 'src': src, 'tgt': tgt, 'nvar': draw(st.integers(1, 8)),
-            'explicit': draw(st.sampled_from([False, False, True])), 'prior': prior,
+            'explicit': draw(st.sampled_from([False, False, True, 'mapping-only'])), 'prior': prior,
             'incon_order': draw(st.sampled_from(['geometry', 'geometry', 'reversed', 'rotated'])), 'again': draw(st.integers(0, 2)) == 0}
 
 
@@ -358,10 +358,12 @@ def run_pair(case, R):
         colmapping = dict((c.name, colmap[c.name].name) for c in tgt.columnlist)
         explicit = True
         R.label('incon:reference-mapping-passed')
+    only_block_mapping = case['explicit'] == 'mapping-only' and mapping is not None
     with R.lib('incon.transfer_from'):
-        if explicit: new.transfer_from(inc, src, tgt, dict(use_map), dict(colmapping))
+        if only_block_mapping: new.transfer_from(inc, src, tgt, dict(use_map))       # the column mapping left to the method
+        elif explicit: new.transfer_from(inc, src, tgt, dict(use_map), dict(colmapping))
         else: new.transfer_from(inc, src, tgt)
-    R.label('incon:explicit-mapping' if explicit else 'incon:internal-mapping')
+    R.label('incon:block-mapping-only' if only_block_mapping else 'incon:explicit-mapping' if explicit else 'incon:internal-mapping')
     R.check(incon_snapshot(inc) == before, 'incon:source-altered', 'the source initial conditions changed during the transfer')
     got_blocks = list(new.blocklist)
     have = set(got_blocks)
